@@ -86,6 +86,47 @@ def sc_blocked_receivers(nreceivers=2, nitems=1, end="close", waitclose=True):
     return sc.finish()
 
 
+POLLER = ("def p(ch):\n    n = 0\n    while n < {tries}:\n        try:\n            x = ch.receive(1)\n            if G.eofs != 0:\n                G.item_after_eof = 1\n"
+          "            G.items = G.items + 1\n        except EOFError:\n            G.eofs = G.eofs + 1\n        except TimeoutError:\n"
+          "            if G.eofs != 0:\n                G.timeout_after_eof = 1\n            if G.wc != 0:\n                G.timeout_after_waitclose = 1\n"
+          "            G.timeouts = G.timeouts + 1\n        n = n + 1\n    G.done_0 = 1\n")
+
+
+def sc_polling_receiver(nitems=1, waitclose_first=False, tries=3):
+    """a user thread polls with receive(timeout): a timeout may expire whenever the queue is empty (however slow the receiver
+    thread is).  Once a receive raised EOFError every later one does (never an item, never a timeout); with waitclose_first the
+    thread waits for the close first - from then on no receive may time out: the items are there, then EOFError."""
+    import z3
+
+    from vlib import e2
+    from vlib.py2ts import INT0
+
+    sc = e2.ChannelScenario(f"polling_receiver[{nitems},wc_first={waitclose_first},{tries}]", prequeued=0, nevents=2)
+    names = list(sc.ITEMS[:nitems])
+    body = ""
+    for n in names:
+        body += f"    with gw._receivelock:\n        f._local_receive(1, {n})\n"
+    body += "    with gw._receivelock:\n        f._local_close(1)\n"
+    sc.add("receiver", f"def p({', '.join(['gw', 'f'] + names)}):\n" + body + "    G.recv_done = 1\n", ["gw", "f"] + names)
+    src = POLLER.replace("{tries}", str(tries))
+    if waitclose_first:
+        src = src.replace("def p(ch):\n", "def p(ch):\n    ch.waitclose(None)\n    G.wc = 1\n")
+    sc.add("user0", src, ["ch"])
+    for g in ("items", "eofs", "timeouts", "wc", "item_after_eof", "timeout_after_eof", "timeout_after_waitclose"):
+        sc.model.var(f"G.{g}", INT0)
+    sc.bad += [("blocked", "user0"), ("blocked", "receiver"), ("flag", "item_after_eof"), ("flag", "timeout_after_eof"), ("flag", "timeout_after_waitclose"),
+               ("custom", "item_duplicated", lambda enc, K: z3.Or([z3.UGT(enc.var(i, "G.items"), INT0 + nitems) for i in range(K + 1)]), lambda g, d, b: g.get("items", 0) > nitems)]
+    if waitclose_first:
+        sc.bad.append(("custom", "items_or_eof_missing_after_waitclose",
+                       lambda enc, K: z3.And(z3.Not(enc.can_move(K)), z3.Or(enc.var(K, "G.items") != INT0 + min(nitems, tries), enc.var(K, "G.eofs") != INT0 + tries - min(nitems, tries))),
+                       lambda g, d, b: g.get("items", 0) != min(nitems, tries) or g.get("eofs", 0) != tries - min(nitems, tries)))
+    sc.good_flags += ["recv_done", "done_0"]
+    sc.observed += ["items", "eofs", "timeouts", "recv_done", "done_0", "item_after_eof", "timeout_after_eof", "timeout_after_waitclose"]
+    sc.finish()
+    sc.ts.eager_timeouts = {"user0"}
+    return sc
+
+
 def e2_specs(tier):
     thorough = tier == "thorough"
     combos = [(2, 1, "close", True), (2, 0, "close", False), (2, 1, "eof", False)]
@@ -93,7 +134,10 @@ def e2_specs(tier):
         combos += [(2, 2, "close", True), (3, 1, "close", False), (2, 1, "eof", True)]
     return [{"module": "props.c03", "factory": "sc_blocked_receivers", "args": {"nreceivers": r, "nitems": i, "end": e, "waitclose": w}, "K": 0,
              "name": f"blocked_receivers[{r},{i},{e},wc={w}]", "timeout": 3000 if thorough else 600, "validate": 3, "depth_probes": 200, "sync_granularity": not thorough and r * 2 + i > 4}
-            for r, i, e, w in combos]
+            for r, i, e, w in combos] + [
+        {"module": "props.c03", "factory": "sc_polling_receiver", "args": {"nitems": n, "waitclose_first": w, "tries": t}, "K": 0,
+         "name": f"polling_receiver[{n},wc_first={w},{t}]", "timeout": 3000 if thorough else 600, "validate": 3, "depth_probes": 200}
+        for n, w, t in ([(1, False, 3), (1, True, 2)] + ([(2, False, 4), (2, True, 3), (0, True, 2)] if thorough else []))]
 
 
 def signature(o, cex, detail):
@@ -122,7 +166,9 @@ def run(tier: str) -> Outcome:
                      "order, then EOFError on every further receive, waitclose returns, send raises OSError, isclosed; the closing side likewise; a second "
                      "close writes nothing; the sibling channel is untouched; E2 (bounded model checking): 2 (thorough 3) user threads blocked in receive() and one in "
                      "waitclose() race the receiver thread delivering the last item and the close / the connection loss - in every schedule each item is received "
-                     "exactly once, every other receive raises EOFError (the ENDMARKER is re-queued for the next receiver), waitclose returns, nobody stays blocked"),
+                     "exactly once, every other receive raises EOFError (the ENDMARKER is re-queued for the next receiver), waitclose returns, nobody stays blocked; "
+                     "a user thread polling with receive(timeout) whose timeouts may expire at any moment the queue is empty (2-4 polls, optionally after waitclose()): "
+                     "once EOFError, always EOFError (no item, no timeout afterwards); after waitclose() returned no poll times out"),
     )
     e2run.merge_into(out, e2out, "e2_blocked_receivers",
                      "E2 part: queue.Queue = FIFO with blocking get, channel/callback tables = finite maps, loads_internal = identity; handlers run under gateway._receivelock")
@@ -133,7 +179,7 @@ def replay(rep):
     if rep.get("engine") == "E2":
         from vlib import e2run
 
-        sc = sc_blocked_receivers(**rep["scenario"]["args"])
+        sc = globals()[rep["scenario"].get("factory", "sc_blocked_receivers")](**rep["scenario"]["args"])
         ghost, done, blocked, sched = sc.replay([tuple(x) for x in rep["order"]], mode=rep.get("mode", "sync"))
         hits = e2run.real_bad(sc.bad, ghost, done, blocked)
         return bool(hits) and not sched.diverged, f"hits={hits} ghost={ghost} blocked={blocked} diverged={sched.diverged}"
